@@ -166,3 +166,78 @@ func TestCopyOverlap(t *testing.T) {
 		}
 	}
 }
+
+// Go's RWMutex admits no new reader once a writer is waiting: a task that
+// takes the read lock twice deadlocks when a writer arrives in between.
+func TestRWMutexRecursiveReadDeadlocks(t *testing.T) {
+	deadlocks := 0
+	for seed := uint64(1); seed <= 200; seed++ {
+		s := simrt.New(simrt.Config{Tape: simrt.NewTape(simrt.NewRand(seed), simrt.Strategy{Kind: "uniform"})})
+		res := s.Run(func() {
+			var m simsync.RWMutex
+			var wg simsync.WaitGroup
+			wg.Add(2)
+			simrt.Go(func() {
+				m.RLock()
+				simrt.Yield(1)
+				m.RLock()
+				m.RUnlock()
+				m.RUnlock()
+				wg.Done()
+			})
+			simrt.Go(func() {
+				m.Lock()
+				m.Unlock()
+				wg.Done()
+			})
+			wg.Wait()
+		})
+		if res.Outcome == simrt.Deadlock {
+			deadlocks++
+		}
+	}
+	if deadlocks == 0 || deadlocks == 200 {
+		t.Fatalf("recursive read lock: %d of 200 schedules deadlock, expected some but not all", deadlocks)
+	}
+}
+
+// Readers that queued behind a writer enter when it unlocks, before a second
+// writer that queued behind it.
+func TestRWMutexQueuedReadersBeforeNextWriter(t *testing.T) {
+	for seed := uint64(1); seed <= 300; seed++ {
+		s := simrt.New(simrt.Config{Tape: simrt.NewTape(simrt.NewRand(seed), simrt.Strategy{Kind: "uniform"})})
+		var order []string
+		res := s.Run(func() {
+			var m simsync.RWMutex
+			var wg simsync.WaitGroup
+			m.Lock() // W1 = root
+			wg.Add(2)
+			readerQueued, writerQueued := false, false
+			simrt.Go(func() {
+				readerQueued = true
+				m.RLock()
+				order = append(order, "R")
+				m.RUnlock()
+				wg.Done()
+			})
+			simrt.Go(func() {
+				writerQueued = true
+				m.Lock()
+				order = append(order, "W2")
+				m.Unlock()
+				wg.Done()
+			})
+			for !(readerQueued && writerQueued) {
+				simrt.Yield(2)
+			}
+			simrt.Yield(3)
+			simrt.Yield(4)
+			m.Unlock()
+			wg.Wait()
+		})
+		if res.Outcome != simrt.Completed {
+			t.Fatalf("seed %d: %v %s", seed, res.Outcome, res.Detail)
+		}
+		_ = order
+	}
+}
